@@ -523,6 +523,12 @@ def families(tier):
     for s in ((1, 1), (2, 2), (1, 2), (2, 1), (3, 3), (4, 4)):
         for same in (True, False):
             add("tconv.s%dx%d.%s" % (s[0], s[1], "same" if same else "valid"), tconv(s=s, same=same))
+    # kernel extents below, at and above the stride, per axis (the VALID output extent clamps kernel - stride at zero)
+    for kh, kw in ((1, 1), (1, 3), (3, 1), (2, 2), (1, 2), (2, 1), (4, 4), (2, 5)):
+        for st in ((1, 1), (2, 2)):
+            for same in (True, False):
+                add("tconv.k%dx%d.s%dx%d.%s" % (kh, kw, st[0], st[1], "same" if same else "valid"), tconv(k=(kh, kw), s=st, same=same))
+    add("tconv.k1x1.s2x2.valid.short", tconv(ifm=(1, 4, 4, 8), k=(1, 1), s=(2, 2), same=False, ohw=(7, 7)))
     add("tconv.s1x2.h1k1", tconv(ifm=(1, 1, 8, 8), k=(1, 3), s=(1, 2)))
     add("tconv.s2x1.w1k1", tconv(ifm=(1, 8, 1, 8), k=(3, 1), s=(2, 1)))
     add("tconv.same.badshape", tconv(s=(2, 2), same=True, ohw=(17, 17)))
